@@ -121,6 +121,10 @@ def attribute(ev, cl, tags, trace):
         if ev.get("which") == "hash":
             return lineage & {"C08"}
         return {"C06"} | lineage
+    if op == "Doc":
+        return {"C06"} if cl in ("frame", "noshare") else {"C04"} | lineage
+    if op == "FromDoc":
+        return {"C15"}
     if op == "Drop":
         return {"C06"}
     return set()
